@@ -409,6 +409,52 @@ static void wl_userdata_copy(struct ctx *c)
 	json_object_put(dst); check_keeps(c); put_keeps(c, 1);
 }
 
+/* parse under a locale whose decimal point is ',' (synthesised xx_XX through LOCPATH): the parser's locale switching (duplocale/newlocale/uselocale/freelocale)
+ * is on the path whatever shortcut an implementation takes for "C"-like locales.  param = doc*4 + mode (0 global, 1 per-thread, 2 global chunked, 3 per-thread verbose) */
+static void wl_parse_locale(struct ctx *c)
+{
+	const char *d = DOCS[c->param / 4]; int mode = c->param & 3; struct json_tokener *tok = json_tokener_new(); struct json_object *o = NULL; enum json_tokener_error e = json_tokener_continue;
+	locale_t mine = (locale_t)0, prev = (locale_t)0;
+	if (mode & 1) { mine = newlocale(LC_ALL_MASK, "xx_XX", (locale_t)0); if (mine) prev = uselocale(mine); }
+	else if (!setlocale(LC_ALL, "xx_XX")) mine = (locale_t)0;
+	if (strcmp(localeconv()->decimal_point, ",") != 0) { bad(c, "HARNESS:comma-locale-not-in-effect"); goto done; }
+	ARM(c);
+	if (mode == 2) { size_t n = strlen(d) + 1, off = 0; while (off < n) { size_t len = n - off < 5 ? n - off : 5; o = json_tokener_parse_ex(tok, d + off, (int)len); e = json_tokener_get_error(tok); off += len; if (e != json_tokener_continue) break; } }
+	else if (mode == 3) { o = json_tokener_parse_verbose(d, &e); }
+	else { o = json_tokener_parse_ex(tok, d, (int)strlen(d) + 1); e = json_tokener_get_error(tok); }
+	DISARM(c);
+	if (!o && (e == json_tokener_error_memory || (mode == 3 && c->fired))) c->failed = 1; else { ob_printf(&c->res, "err=%d ", (int)e); res_obj(c, o); }
+	if (strcmp(localeconv()->decimal_point, ",") != 0) bad(c, "callers-locale-not-restored");
+	if ((mode & 1) && uselocale((locale_t)0) != mine) bad(c, "callers-thread-locale-object-replaced");
+	json_object_put(o);
+done:
+	if (mode & 1) { if (mine) { uselocale(prev); freelocale(mine); } } else setlocale(LC_ALL, "C");
+	json_tokener_free(tok);
+}
+/* json_pointer_set / json_patch add of a NEW member (escaped name) into an object holding exactly m members, m around the table's growth points:
+ * the insert itself has to allocate (entry key, table resize).  param = m*2 + kind (0 pointer_set, 1 patch add) */
+static void wl_pointer_grow(struct ctx *c)
+{
+	int m = c->param / 2, kind = c->param & 1, i, rc; struct json_object *o = json_object_new_object(), *v = NULL, *patch = NULL, *ref; struct json_patch_error pe; char kb[32];
+	for (i = 0; i < m; i++) { snprintf(kb, sizeof kb, "member%d", i); json_object_object_add(o, kb, json_object_new_int(i)); }
+	ref = NULL; json_object_deep_copy(o, &ref, NULL);
+	if (kind == 0) v = json_object_new_string("set value");
+	else { patch = P("[{\"op\":\"add\",\"path\":\"/new~1member~0x\",\"value\":[\"v\"]}]"); keep(c, patch); }
+	ARM(c);
+	if (kind == 0) rc = json_pointer_set(&o, "/new~1member~0x", v);
+	else rc = json_patch_apply(NULL, patch, &o, &pe);
+	DISARM(c);
+	if (rc != 0) {
+		c->failed = 1;
+		if (kind == 0 && json_object_put(v) != 1) bad(c, "failed-set-took-the-value");
+		if (kind == 0 && !json_object_equal(o, ref)) bad(c, "failed-set-changed-the-tree");
+	} else res_obj(c, o);
+	if (!json_object_to_json_string_ext(o, 0)) bad(c, "tree-unusable");
+	if (json_object_put(o) != 1) bad(c, "root-refcount");
+	json_object_put(ref);
+	if (kind == 1) { check_keeps(c); put_keeps(c, 1); }
+}
+
 struct workload { const char *name; void (*fn)(struct ctx *); int param; const char *cat; };
 #define MAXW 400
 static struct workload W[MAXW]; static int NW;
@@ -440,6 +486,8 @@ static void build_table(void)
 	for (i = 0; i < 8; i++) addw("double_format", wl_double_format, i, "config");
 	for (i = 0; i < 3; i++) addw("big", wl_big_inputs, i, i == 2 ? "patch" : i == 1 ? "fd" : "parse");
 	addw("lh_table", wl_lh_table, 0, "table"); addw("lh_table", wl_lh_table, 16, "table");
+	{ static const int ps[] = {0 * 4 + 0, 5 * 4 + 0, 5 * 4 + 1, 5 * 4 + 2, 5 * 4 + 3, 6 * 4 + 1, 9 * 4 + 2}; for (i = 0; i < 7; i++) addw("parse_comma_locale", wl_parse_locale, ps[i], "parse"); }
+	{ static const int ms[] = {0, 9, 10, 11, 12, 21, 22, 23, 43, 44}; int j; for (i = 0; i < 10; i++) for (j = 0; j < 2; j++) addw("pointer_grow", wl_pointer_grow, ms[i] * 2 + j, j ? "patch" : "pointer"); }
 }
 
 static uint32_t crc32s(const char *p, size_t n)
@@ -460,7 +508,7 @@ static void run_one(struct ctx *c, int w, unsigned long k, unsigned long k2)
 static void cmd_w(int nt, char **t)
 {
 	int w = (int)strtol(t[1], NULL, 0); unsigned long k0 = strtoul(t[2], NULL, 0), k1 = strtoul(t[3], NULL, 0), k2off = nt > 4 ? strtoul(t[4], NULL, 0) : 0, k, N;
-	struct ctx ref, c; long live0; unsigned long serial0;
+	struct ctx ref, c; long live0, loc0, locff0; unsigned long serial0;
 	if (w < 0 || w >= NW) { printf("! bad workload\n"); return; }
 	/* warm-up run so that one-time allocations (hash seed, printbuf of shared nodes ...) are not attributed to the workload */
 	run_one(&ref, w, 0, 0); free(ref.res.b);
@@ -476,6 +524,7 @@ static void cmd_w(int nt, char **t)
 		printf("K %d %lu\n", w, k); fflush(stdout); vf_progress++;
 		live0 = vf_live_blocks;
 		serial0 = vf_next_serial();
+		loc0 = vf_loc_live; locff0 = vf_loc_foreign_free;
 		run_one(&c, w, k, k2off ? k + k2off : 0);
 		if (c.bad[0]) { snprintf(vb, sizeof vb, "%s", c.bad); v = vb; }
 		else if (!c.fired) { if (c.failed) v = "failure-without-fault"; else if (c.res.n != ref.res.n || memcmp(c.res.b ? c.res.b : "", ref.res.b ? ref.res.b : "", c.res.n)) v = "result-differs-without-fault"; }
@@ -488,6 +537,8 @@ static void cmd_w(int nt, char **t)
 			if (vf_live_blocks > live0 && vf_live_since(serial0, &p, &sz, &site)) snprintf(vb, sizeof vb, "leak:%ld-blocks:first-size-%zu:site-%lx", vf_live_blocks - live0, sz, (unsigned long)(uintptr_t)site);
 			v = vb;
 		}
+		if (!strcmp(v, "ok") && vf_loc_live != loc0) { snprintf(vb, sizeof vb, "locale-object-leak:%ld", vf_loc_live - loc0); v = vb; }
+		if (!strcmp(v, "ok") && vf_loc_foreign_free != locff0) { snprintf(vb, sizeof vb, "freed-a-locale-it-does-not-own"); v = vb; }
 		printf("F %d %lu fired=%d site=%lx kind=%s out=%s v=%s\n", w, k, c.fired, (unsigned long)(uintptr_t)vf_fault_site[0], vf_fault_kind[0] ? vf_fault_kind[0] : "-", c.failed ? "failure" : "normal", v);
 		fflush(stdout);
 		free(c.res.b);
